@@ -55,6 +55,10 @@ pub struct C14Scenario {
     /// (a port scanner, a health check, a mistyped URL)
     #[serde(default)]
     pub stray_connection: bool,
+    /// instead of the phases: a `run` holder of this many targets whose standard output nobody reads (its
+    /// result document does not fit the pipe), and these contenders started while it is stuck printing
+    #[serde(default)]
+    pub blocked_stdout: Option<(usize, Vec<Kind>)>,
 }
 
 pub struct C14;
@@ -101,6 +105,7 @@ fn gen_c14(seed: u64, idx: usize, _tier: Tier) -> C14Scenario {
         nested: if hold_at_child && rng.chance(1, 2) { Some(*rng.pick(&kinds)) } else { None },
         listen_delay_us: if rng.chance(1, 3) { Some(*rng.pick(&[2_000u32, 20_000, 100_000])) } else { None },
         stray_connection: rng.chance(1, 3),
+        blocked_stdout: if rng.chance(1, 8) { Some((rng.range(30, 60), (0..rng.range(1, 3)).map(|_| *rng.pick(&kinds)).collect())) } else { None },
     }
 }
 
@@ -160,7 +165,120 @@ fn is_lock_error(x: &crate::ctl::ProcExit) -> bool {
     x.code.map(|c| c != 0).unwrap_or(false) && s.lines().any(|l| serde_json::from_str::<Value>(l).map(|v| v["type"] == "server" && v["message"].as_str().map(|m| m.contains("Lock")).unwrap_or(false)).unwrap_or(false))
 }
 
+/// A `run` that has finished its work but cannot get rid of its result document (nobody reads its stdout) is
+/// still an invocation past lock acquisition: whoever tries meanwhile must be refused.
+fn exec_c14_blocked(sc: &C14Scenario, n: usize, contenders: &[Kind]) -> Outcome {
+    let mut rng = Rng::new(sc.rand_seed);
+    let spec = flat_world(&mut rng, n, 1, 3, 0, true);
+    let mut w = match World::create(&spec, true) {
+        Ok(w) => w,
+        Err(e) => return Outcome::skip(&format!("world: {}", e)),
+    };
+    w.set_rand_seed(sc.rand_seed);
+    let hang = Duration::from_millis(default_hang_ms());
+    let mut out = Outcome::default();
+    if w.cli(&["checkpoint", "update", "--id", "prefix"]).code != Some(0) {
+        return Outcome::skip("prefix checkpoint failed");
+    }
+    let points = "cli.lock.acquired";
+    let (p0, gate) = match w.start_m_gated("H", &kind_args(Kind::Run, &spec), points, &[]) {
+        Ok(x) => x,
+        Err(e) => return Outcome::skip(&format!("start: {}", e)),
+    };
+    match wait_lock_or_exit(w.ctl.as_mut().unwrap(), "H", p0, hang) {
+        Reached::Parked(c) => {
+            w.ctl.as_mut().unwrap().send(c, "GO\n");
+        }
+        Reached::Exited(x) => {
+            if is_lock_error(&x) {
+                return Outcome::skip("lock port taken by a stranger");
+            }
+            out.violate("acquire_after_release", "first_never_acquired", format!("the only invocation exited {:?} without reaching lock acquisition", x.code));
+            return out;
+        }
+        Reached::Timeout => {
+            out.violate("acquire_after_release", "first_hung", "run neither acquired the lock nor exited".into());
+            return out;
+        }
+    }
+    // every child exits 0 at once; then the holder has nothing left to do but print
+    let mut served = 0;
+    loop {
+        let ctl = w.ctl.as_mut().unwrap();
+        match ctl.wait_for(|e| matches!(e, Ev::Hello(h) if h.actor == "H") || matches!(e, Ev::Exit(x) if x.proc_id == p0), if served >= n { Duration::from_millis(400) } else { hang }) {
+            Some(Ev::Hello(h)) => {
+                served += 1;
+                ctl.send(h.conn, "EXIT 0\n");
+            }
+            Some(Ev::Exit(_)) => {
+                gate.store(true, std::sync::atomic::Ordering::SeqCst);
+                return Outcome::skip("holder finished although nobody read its output (document fits the pipe)");
+            }
+            _ => break,
+        }
+    }
+    if served < n {
+        gate.store(true, std::sync::atomic::Ordering::SeqCst);
+        return Outcome::skip("holder run did not start all its children(other property)");
+    }
+    out.fault("holder_stuck_printing_its_result_to_a_reader_that_does_not_read", 1);
+    out.trace.push(format!("holder run of {} targets served; it is alive and its stdout is not being read", n));
+    let s1 = snap(&w, true);
+    for (i, k) in contenders.iter().enumerate() {
+        let a = format!("K{}", i + 1);
+        let p = match w.start_m(&a, &kind_args(*k, &spec), points, &[]) {
+            Ok(p) => p,
+            Err(e) => return Outcome::skip(&format!("start: {}", e)),
+        };
+        let holder_alive = !w.ctl.as_ref().unwrap().procs[p0].exited;
+        match wait_lock_or_exit(w.ctl.as_mut().unwrap(), &a, p, hang) {
+            Reached::Parked(_) => {
+                if holder_alive && !w.ctl.as_ref().unwrap().procs[p0].exited {
+                    out.violate("overlap", "two_past_the_lock", format!("{:?} got past lock acquisition while the `run` started first was still alive past it (stuck printing its result)", k));
+                }
+                break;
+            }
+            Reached::Exited(x) => {
+                out.sub_evals += 1;
+                if !is_lock_error(&x) {
+                    out.violate("loser_exit", "no_lock_error", format!("{:?} ran while a `run` held the lock and exited {:?} with {:?} instead of a lock error", k, x.code, String::from_utf8_lossy(&x.stderr).trim()));
+                    break;
+                }
+            }
+            Reached::Timeout => {
+                out.violate("loser_exit", "hung", format!("{:?} neither failed nor acquired while a `run` held the lock", k));
+                break;
+            }
+        }
+    }
+    if out.violations.is_empty() {
+        // the holder's own records may appear (it completed); nothing else may change
+        let s2 = snap(&w, true);
+        let diff: Vec<&String> = s1.keys().chain(s2.keys()).filter(|k| s1.get(*k) != s2.get(*k) && !k.starts_with("tracking/run")).collect();
+        if !diff.is_empty() {
+            out.violate("loser_side_effect", "out_dir_changed", format!("contenders {:?} lost the lock but the output directory changed: {:?}", contenders, diff));
+        }
+    }
+    gate.store(true, std::sync::atomic::Ordering::SeqCst);
+    let ctl = w.ctl.as_mut().unwrap();
+    match ctl.wait_exit(p0, hang) {
+        Some(x) if x.code == Some(0) => {}
+        other => {
+            if out.violations.is_empty() {
+                out.advisories.push(format!("holder ended with {:?} once its output was read", other.map(|x| x.code)));
+            }
+        }
+    }
+    out.nontrivial = true;
+    out.signature = format!("blocked|{}|{:?}", n, contenders);
+    out.steps = contenders.len() as u64 + 1;
+    out
+}
+
 fn exec_c14(sc: &C14Scenario) -> Outcome {
+    if let Some((n, ks)) = &sc.blocked_stdout {
+        return exec_c14_blocked(sc, *n, ks);
+    }
     let mut spec = sc.spec.clone();
     if spec.lock_host.as_deref() == Some("localhost") {
         // only where the name denotes exactly one address: with several, binding "the first address that
